@@ -33,13 +33,11 @@ def patch_clients(pkg, samples, gs, hs, rest_only):
         cls = getattr(mod, s["client"])
         is_async = s["client"].endswith("AsyncClient")
 
-        def pick(suffix):
-            names = [n for n in dir(tm) if n.endswith(suffix) and not n.startswith("_")]
-            return getattr(tm, sorted(names, key=len)[0])
+        def make_init(orig, is_async, tm):
+            def pick(suffix):
+                names = [n for n in dir(tm) if n.endswith(suffix) and not n.startswith("_")]
+                return getattr(tm, sorted(names, key=len)[0])
 
-        orig = cls.__init__
-
-        def make_init(orig, is_async):
             def __init__(self, *a, **k):
                 if not a and "transport" not in k and "credentials" not in k and "client_options" not in k:
                     if rest_only:
@@ -51,7 +49,8 @@ def patch_clients(pkg, samples, gs, hs, rest_only):
                 return orig(self, *a, **k)
             return __init__
 
-        cls.__init__ = make_init(orig, is_async)
+        orig = cls.__init__
+        cls.__init__ = make_init(orig, is_async, tm)
 
 
 def type_name(t):
